@@ -33,7 +33,7 @@ class Contract:
                calls=None, note='', defaults=None, may_raise=(), abstract=False,
                types=None, lemmas=None, defs=None, hints=None, cases=None, recdefs=None,
                facts=None, entry_facts=None, cm=False, enter_ensures=None, exit_post=None,
-               exc_rel=None, swallows=None, havoc_all=False, ghost_writes=()):
+               exc_rel=None, swallows=None, havoc_all=False, ghost_writes=(), pivots=None):
     self.id = cid
     self.file = file
     self.qualname = qualname
@@ -69,6 +69,7 @@ class Contract:
     # describe __enter__; `exit_post(c)` relates c.body (heap when the body finished) to c.heap;
     # `exc_rel(c, E, F)` relates the exception E raised by the body to the escaping exception F
     self.cm = cm
+    self.pivots = pivots         # Ctx(exit) -> split points for quantified goals at the exits
     self.ghost_writes = tuple(ghost_writes)   # ghost heap names ('g:...') this contract changes
     self.havoc_all = havoc_all   # the callee may modify any heap location (arbitrary user code)
     self.enter_ensures = enter_ensures
